@@ -118,6 +118,15 @@ func c07Monitor(res *c07Result, from string, ver string, cidLen int, d []byte, m
 		l := int(d[off+hdr-2])<<8 | int(d[off+hdr-1])
 		body := d[off+hdr : min(off+hdr+l, len(d))]
 		switch {
+		case ver == "13" && (b == 23 || (b == 22 && epoch > 0 && len(body) >= 1)):
+			// a DTLS 1.3 endpoint protects records in the unified-header format only: a record in the DTLSPlaintext format
+			// is in clear whatever epoch its header names
+			if b == 23 {
+				res.AppRecords++
+				v("application data in a DTLSPlaintext (unprotected) record, epoch field %d, emitted by %s", epoch, from)
+			} else if t := body[0]; t != 1 && t != 2 {
+				v("DTLS 1.3 handshake message type %d in a DTLSPlaintext (unprotected) record labelled epoch %d emitted by %s", t, epoch, from)
+			}
 		case b == 23:
 			res.AppRecords++
 			if epoch == 0 {
@@ -143,7 +152,7 @@ func c07Monitor(res *c07Result, from string, ver string, cidLen int, d []byte, m
 				v("DTLS 1.3 handshake message type %d in an epoch-0 (cleartext) record emitted by %s", t, from)
 			}
 		}
-		if epoch > 0 {
+		if epoch > 0 && ver != "13" {
 			res.Protected++
 		}
 		off += hdr + l
